@@ -20,6 +20,7 @@ import vcheck as V
 
 PID = "C15"
 LEVEL = "other"
+WORKERS = int(os.environ.get("VERIF_TLC_WORKERS", "8"))     # <= 8; the builders ran with 4 on the shared machine
 
 
 def molgen_check():
@@ -30,7 +31,7 @@ def molgen_check():
 
 def enumerate_values(c, cfg, timeout):
     outdir = V.workdir(PID, "vals", fresh=True)
-    res = V.tlc(PID, "MC_C15", cfg, workers=8, timeout=timeout, xmx="10g", env={"C15_OUT": outdir})
+    res = V.tlc(PID, "MC_C15", cfg, workers=WORKERS, timeout=timeout, xmx="10g", env={"C15_OUT": outdir})
     if res["violated"]:
         c.violation("model/" + res["violated"], "the specification violates its own law %s (%s)" % (res["violated"], cfg),
                     {"kind": "model", "cfg": cfg, "tlc_tail": res["out"][-3000:]})
@@ -138,7 +139,7 @@ def replay(path, tier):
         import c16
         c16.replay_buffers(c, [p["record"]], strict_only=True)
     else:
-        res = V.tlc(PID, "MC_C15", p["cfg"], workers=8, env={"C15_OUT": V.workdir(PID, "vals", fresh=True)}, xmx="10g")
+        res = V.tlc(PID, "MC_C15", p["cfg"], workers=WORKERS, env={"C15_OUT": V.workdir(PID, "vals", fresh=True)}, xmx="10g")
         if res["violated"]:
             c.violation("model/" + res["violated"], "model violation", p)
     return 1 if c.violations else 0
